@@ -12,9 +12,10 @@ RULE = ("random solved models with 1-6 pins (pins with and without mode names), 
         "pins; all helpers {get_T, get_PH, get_A, get_output (both modes), get_full_output, get_data, get_full_data}; the "
         "same circuit built with pin names and with Pin objects; distinct = distinct (matrix, excitation); non-trivial = "
         "at least 2 pins and a non-symmetric matrix")
-TRUSTED = ["pandas DataFrame construction", "numpy abs/angle/log10"]
+TRUSTED = ["pandas DataFrame construction", "numpy abs/angle/log10", "translator readout.py (symbolic execution on numpy object arrays; fixed instance K=2, N=3)"]
 ASSUMPTIONS = ["A = 0: numpy gives -inf dB for both 20*log10|A| and 10*log10 T; the Lean identity is stated for A != 0"]
-EXPLANATION = "linearity / power / dB identities as Lean theorems over ℂ; accessor formulas pinned to the source text"
+EXPLANATION = ("linearity / power / dB identities as Lean theorems over ℂ; the helpers of the current source are executed on a symbolic solved model "
+               "(Generated/Readout.lean) and identified with the size-generic model by the C15_src_* theorems; the tracer is validated against the running code")
 
 
 def rand_model(rng):
@@ -193,8 +194,39 @@ def name_or_pin(ctx, rng):
             ctx.violation(f"C15:name-vs-pin-raised-{type(e).__name__}", f"building by name / by Pin raised {type(e).__name__}", {"kind": "name-or-pin", "circuit": gen.circuit_json(circ)})
 
 
+def trace_monitor(ctx, rng):
+    """translator of `Generated/Readout.lean` vs the running code: the traced expression trees, evaluated at random complex
+    stacks and excitations, must equal what the real helpers return on the real solved model"""
+    from translate import readout as tr
+    from common import REPO
+    try:
+        traced = tr.trace_all(str(REPO))
+    except Exception as e:  # noqa  (already a broken obligation of the Lean stage)
+        ctx.notes.append(f"read-out tracer: {type(e).__name__}: {str(e)[:200]}")
+        return
+    for i in range(ctx.budget(30, 300)):
+        env = {"up": complex(rng.uniform(-1, 1), rng.uniform(-1, 1)), "ur": complex(rng.uniform(-1, 1), rng.uniform(-1, 1))}
+        for k in range(tr.K):
+            for a in range(tr.N):
+                for b in range(tr.N):
+                    env[f"(S {k} {a} {b})"] = complex(rng.uniform(-1, 1), rng.uniform(-1, 1))
+        rep = {"kind": "trace", "env": {k: [v.real, v.imag] for k, v in env.items()}}
+        ctx.case(rep, tags=["traced-readout"])
+        try:
+            want = tr.eval_all(traced, env)
+            got = tr.real_all(str(REPO), env)
+        except Exception as e:  # noqa
+            ctx.disagreement("C15.translator.readout", f"{type(e).__name__}: {str(e)[:100]}", rep)
+            return
+        for k in want:
+            if len(want[k]) != len(got.get(k, [])) or max(abs(x - y) for x, y in zip(want[k], got[k])) > 1e-9:
+                ctx.disagreement("C15.translator.readout", f"{k}: traced expression and running code differ", rep)
+                return
+
+
 def run(ctx):
     rng = ctx.subrng("c15")
+    trace_monitor(ctx, ctx.subrng("c15-trace"))
     for i in range(ctx.budget(300, 5000)):
         if ctx.time_left() < 0:
             break
@@ -207,6 +239,13 @@ def replay(ctx, data):
     L = impl.lk()
     if data.get("kind") == "name-or-pin":
         return True, "regenerated stream; not replayed"
+    if data.get("kind") == "trace":
+        from translate import readout as tr
+        from common import REPO
+        env = {k: complex(v[0], v[1]) for k, v in data["env"].items()}
+        want, got = tr.eval_all(tr.trace_all(str(REPO)), env), tr.real_all(str(REPO), env)
+        d = max(abs(x - y) for k in want for x, y in zip(want[k], got[k]))
+        return d <= 1e-9, f"traced read-outs vs running code: max difference {d:.3g}"
     pins = [L.Pin(b, mo) for b, mo in data["pins"]]
     S = np.array([[[complex(z[0], z[1]) for z in row] for row in Sk] for Sk in data["S"]])
     params = {k: np.array(v) for k, v in data["params"].items()}
